@@ -281,7 +281,7 @@ def rule_connected_charged(ck, rid="C02.R10"):
             continue
         fl = flow_of(inline_helpers(repo, f))
         cfg = fl.cfg
-        calls = [(nd, c) for nd, c in calls_in(fl, "charge") if canon(c.func.value) in ("self._ev", "self.ev")]
+        calls = [(nd, c) for nd, c in calls_in(fl, "charge") if isinstance(c.func, ast.Attribute) and canon(fl.expand(c.func.value, nd)) in ("self._ev", "self.ev")]
         if not calls:
             if ci.name == "BaseEVSE":
                 ck.violation(rid, f, f.node, "set_pilot never charges the connected EV", sink="set_pilot:no-charge")
